@@ -56,6 +56,7 @@ type batch2 struct {
 	batches  []nodeBatch
 	index    []int
 	err      error
+	routed   slotRoutes
 }
 
 func (tb *batch2) joinError(err error) error {
@@ -82,11 +83,12 @@ func (batch *batch2) Put(cmd string, args ...interface{}) error {
 		return nil
 	}
 
-	node, err := batch.cluster.ChooseNodeWithCmd(cmd, args...)
+	node, keys, err := batch.cluster.chooseNodeWithCmdAndKeys(cmd, false, args...)
 	if err != nil {
 		err = fmt.Errorf("run ChooseNodeWithCmd error : %w", err)
 		return batch.joinError(err)
 	}
+	node = batch.routed.route(node, keys)
 	if node == nil {
 		// node is nil means no need to put
 		return nil
